@@ -1,7 +1,8 @@
 (** * C01 -- Compiled programs compute what the source says (scalar core, VM). *)
 From Coq Require Import String ZArith List Bool PrimFloat.
 From NSL Require Import Base.Types Base.Syntax Model.PyNum Model.IR Model.VM Model.PyTree Model.Elab Model.Lower Spec.RefSem
-     Harness.RunLib Proofs.OpsAgree.
+     Harness.RunLib Proofs.OpsAgree Proofs.LowerExprProofs Proofs.ElabExprProofs Proofs.ReturnExprProofs Proofs.CallAgreeProofs
+     Proofs.ReturnExprExample Harness.FragLib.
 From NSLDyn Require Gen_VM Agree_VM Gen_Shapes.
 Import ListNotations.
 
@@ -36,6 +37,49 @@ Proof. intros o. split; [apply Agree_VM.agree_from_operation_scalar|destruct o; 
 Theorem C01_promotion_partial : forall z f, to_f (RInt z) = ROk f -> cast_scalar ITFloat (VInt z) = Ok (VFloat f).
 Proof. exact cast_to_float_agrees. Qed.
 
+(** PARTIAL (3): the whole pipeline for functions of the form  function f(params) -> t { return e; }  with e built from
+    int / float literals, int / float parameters and globals and the 13 binary operators, of ANY size: if the front-end
+    model elaborates the function ([elab_func]: operator typing, implicit casts) and the lowering model lowers it
+    ([lower_func]: constants pooled, operands left to right into fresh registers, arm selected by [scalar_opc] with the
+    integer flag of the result type, argument accesses by index) to the IR function F, then, at every call whose
+    arguments and globals are numbers of the declared types, whenever the reference semantics runs the body to a result,
+    that result is a number v and the VM model running F from its first instruction returns exactly v and leaves the VM
+    state unchanged, for every sufficient amount of fuel.  [tok]: && and || only on int operands (on float operands the
+    front end types the 0/1 result as float, and a following / divides differently); [lits_exact]: no two float literals of
+    the function equal as numbers but different as values (+0.0 / -0.0: the constant pool is keyed by ==).  The model
+    functions [elab_func] and [lower_func] are the ones compared for EQUALITY with the real compiler's IR on every run.
+    Missing for the full statement: statements other than a single return (locals, assignments, control flow, calls),
+    aggregates. *)
+Theorem C01_return_expression_functions_partial :
+  forall (M : module) (fn : func) (e : expr) (tf : tfunc) (F : ifunc) (te : texpr),
+    f_body fn = [SRet (Some e)] -> spure e = true ->
+    elab_func (genv_of M) (genvl M) fn = EOk tf -> lower_func (m_structs M) (glnames M) tf = LOk F ->
+    elab (genv_of M) COn (fenv M fn) e = EOk te -> tok te = true ->
+    lits_exact (tflits te) -> (forall f, In f (tflits te) -> PrimFloat.eqb f f = true) ->
+    forall (P : program) (ws : list rval) (g : RefSem.frame) (vs : vmstate),
+      Forall2 (fun p w => has_ty w (fst p)) (f_args fn) ws ->
+      (forall x, In x (map snd (f_args fn)) -> ~ In x (glnames M)) ->
+      (forall x p, find (fun q => String.eqb (fst q) x) (genvl M) = Some p ->
+         num_ty (snd p) /\ exists w, find (fun q => String.eqb (fst q) x) g = Some (fst p, SV w) /\ has_ty w (snd p) /\ slookup x (globals vs) = Some (v_of w)) ->
+      forall fuel fl st', exec_list M fuel (f_body fn) (call_state fn ws g) = ROk (fl, st') ->
+        st' = call_state fn ws g /\
+        exists v, fl = OReturn (SV v) /\ exists n, forall fuel', n <= fuel' -> run fuel' P F 0 (call_frame ws (init_regs F)) vs = Done (v_of v) vs.
+Proof. exact return_function_simulation. Qed.
+
+(** the boolean membership test the check evaluates on every generated function delivers the static hypotheses *)
+Theorem C01_fragment_test_sound : forall M fn, fn_in_fragment M fn = true ->
+  exists e tf F te,
+    f_body fn = [SRet (Some e)] /\ spure e = true /\ elab_func (genv_of M) (genvl M) fn = EOk tf /\ lower_func (m_structs M) (glnames M) tf = LOk F /\
+    elab (genv_of M) COn (fenv M fn) e = EOk te /\ tok te = true /\ (forall f, In f (tflits te) -> PrimFloat.eqb f f = true) /\
+    (forall x, In x (map snd (f_args fn)) -> ~ In x (glnames M)).
+Proof. exact fn_in_fragment_sound. Qed.
+
+(** non-vacuity of (3): int g; f(int a, float b) -> float { return (a + 2) * b + g / 1.5 - (a < g); } at a = 3, b = 2.5, g = 8 *)
+Example C01_return_expression_example : forall P,
+  exists v, exec_list ex_M 10 (f_body ex_fn) (call_state ex_fn ex_ws ex_g) = ROk (OReturn (SV v), call_state ex_fn ex_ws ex_g) /\
+            exists n, forall fuel', n <= fuel' -> run fuel' P ex_F 0 (call_frame ex_ws (init_regs ex_F)) ex_vs = Done (v_of v) ex_vs.
+Proof. exact ex_conclusion. Qed.
+
 (** non-vacuity: 7 / 2 and -7 / 2 truncate; mixed arithmetic promotes; % on non-negative operands *)
 Example C01_examples :
   eval_binop ODiv (RInt 7) (RInt 2) = ROk (RInt 3) /\ eval_binop ODiv (RInt (-7)) (RInt 2) = ROk (RInt (-3)) /\
@@ -45,4 +89,5 @@ Proof. vm_compute. repeat split; reflexivity. Qed.
 
 Eval compute in "ASSUMPTIONS C01_operators_agree_partial"%string. Print Assumptions C01_operators_agree_partial.
 Eval compute in "ASSUMPTIONS C01_selected_arm_is_source_arm_partial"%string. Print Assumptions C01_selected_arm_is_source_arm_partial.
+Eval compute in "ASSUMPTIONS C01_return_expression_functions_partial"%string. Print Assumptions C01_return_expression_functions_partial.
 Eval compute in "END"%string.
